@@ -27,8 +27,13 @@ type memCache struct {
 	m  map[string]string
 }
 
-func (c *memCache) Get(k string) (string, bool) { c.mu.Lock(); defer c.mu.Unlock(); v, ok := c.m[k]; return v, ok }
-func (c *memCache) Set(k, v string)             { c.mu.Lock(); c.m[k] = v; c.mu.Unlock() }
+func (c *memCache) Get(k string) (string, bool) {
+	c.mu.Lock()
+	defer c.mu.Unlock()
+	v, ok := c.m[k]
+	return v, ok
+}
+func (c *memCache) Set(k, v string) { c.mu.Lock(); c.m[k] = v; c.mu.Unlock() }
 
 func init() {
 	modes["race_stress"] = func(t *testing.T) {
